@@ -209,6 +209,14 @@ def r4_follow_last_only(ctx):
     T = ctx.tracer
     ipa, pp = shared(ctx)
     out = []
+    # "open_follow follows exactly the trailing link": whether it follows at all is decided by the readlink probe, whose
+    # discipline (follow whenever the probe shows a link, no-follow open only for ENOENT) is C09.R5
+    from .c09 import r5_probe_discipline
+    for i_ in r5_probe_discipline(ctx):
+        if i_.key.startswith("open_follow:"):
+            i_.rule = "C07.R4"
+            i_.key = "probe:" + i_.key
+            out.append(i_)
     b = F.body(PH + "::open_follow")
     cfg = cfg_of(b)
     sinks = list(b.calls("syscalls::openat_follow"))
@@ -292,6 +300,13 @@ def r6_kernel_errors(ctx):
     return error_swaps(ctx, "C07.R6", lambda b: b.file in ("src/resolvers/procfs.rs", "src/procfs.rs"))
 
 
+def r7_no_normalisation(ctx):
+    """'a magic-link used as a path component fails', 'trailing / decorations': the procfs entry points hand the
+    caller's sub-path to the probe, the split and the resolvers byte for byte (C01.R8 restricted to the procfs files)."""
+    from .c01 import no_lexical_normalisation
+    return no_lexical_normalisation(ctx, "C07.R7", files=("src/procfs.rs", "src/resolvers/procfs.rs", "src/utils/path.rs"))
+
+
 RULES = [
     ("C07.R5", r5_trailing_slash, 1, False),
     ("C07.R1", r1_walk, 5, False),
@@ -299,4 +314,5 @@ RULES = [
     ("C07.R3", r3_creation_flags, 4, False),
     ("C07.R4", r4_follow_last_only, 4, False),
     ("C07.R6", r6_kernel_errors, 1, False),
+    ("C07.R7", r7_no_normalisation, 1, False),
 ]
